@@ -21,7 +21,7 @@ pub fn is_target_response(r: &ReadEv, tcfg: &TraceCfg) -> bool {
     match r.kind {
         Some(RespKind::EchoReply | RespKind::TcpSynAck | RespKind::TcpRst) => true,
         Some(RespKind::TimeExceeded(_) | RespKind::DestUnreach(_)) => r.src == tcfg.target,
-        None => false,
+        Some(RespKind::TcpError(_)) | None => false,
     }
 }
 
